@@ -83,7 +83,7 @@ def run(v, tier, rng):
             if not same:
                 w = {"source_a": byid["c%d" % i]["srcs"][0], "source_b": byid[cid]["srcs"][0], "out_a": base["out"][:400], "out_b": (c or {}).get("out", "died")[:400],
                      "parse_err_b": (c or {}).get("parse_err")}
-                if byid[cid].get("first_label_preceded") and (c or {}).get("parse_err"):
+                if byid[cid].get("first_label_preceded") and ((c or {}).get("parse_err") or (c or {}).get("out") == ""):
                     v.finding("C12-layout-before-first-label", w)
                 else:
                     v.violation("re-laid-out source (comments / spacing / line endings only) assembles differently", w)
